@@ -80,6 +80,11 @@ FineIds == {"FineCuboid", "FineCircle", "FineTetra", "FineGroup"}
 FinePts == <<Obs(<<9, 3, -5>>, "gen"), Obs(<<-7, 5, 11>>, "gen"), Obs(<<3, -5, 7>>, "gen"), Obs(<<801, -603, 1005>>, "far")>>
 C03Fine(c, mode) == IF mode = "pts" THEN Cfg(4, FineSrc(c), FinePts, NoSensor)
                     ELSE Cfg(4, FineSrc(c), C03Pix, [on |-> TRUE, path |-> SPath(4) \o <<Pose(<<-8, 4, 2>>, IdM)>>])
+\* a static scene of three sources (and a static sensor): also moved through the setters of a Collection
+StaticSrcs == <<Src("Cuboid", <<4, 8, 12>>, <<1, 2, 3>>, <<Pose(<<2, -4, 6>>, Rx90)>>), Src("Circle", <<8>>, <<2>>, <<Pose(<<-12, 10, -8>>, RxRz)>>),
+                Src("Tetrahedron", TetV(1), <<3, -1, 2>>, <<Pose(<<-10, -12, 4>>, Tr(R111))>>)>>
+C03Static(mode) == IF mode = "pts" THEN Cfg(4, StaticSrcs, FinePts, NoSensor)
+                   ELSE Cfg(4, StaticSrcs, C03Pix, [on |-> TRUE, path |-> SPath(1)])
 \* two sources of different kinds with paths of different length in one scene
 C03Pair == Cfg(4, <<Src("Cuboid", <<4, 8, 12>>, <<1, 2, 3>>, Path3), Src("Circle", <<8>>, <<2>>, <<Pose(<<-8, 6, -10>>, RxRz)>>)>>, C03Pts, NoSensor)
 
@@ -159,20 +164,35 @@ PExtA == Pose(<<2, -4, 6>>, IdM)
 PExtB == Pose(<<-4, 2, 6>>, Rz90)
 C13Ext == [CuboidExtA |-> Cfg(4, <<Src("Cuboid", <<4, 8, 12>>, <<1, 2, 3>>, <<PExtA>>)>>, ExtObs(PExtA), NoSensor),
            CuboidExtB |-> Cfg(4, <<Src("Cuboid", <<4, 8, 12>>, <<3, -1, 2>>, <<PExtB>>)>>, ExtObs(PExtB), NoSensor)]
+\* THIN bodies (aspect 1:1000 along each axis, one of 1:5000): plates cut in halves, slabs, two diagonal prisms, mesh / hull / sheets;
+\* observers at distances comparable to the large extent
+Cyc(k, v) == [j \in 1..3 |-> v[(((j - 1) + (3 - k)) % 3) + 1]]            \* the point whose third coordinate becomes coordinate k
+ThinLocal == <<<<901, 301, 201>>, <<101, 201, 301>>, <<-401, 1201, 701>>, <<201, -101, -41>>>>
+ThinObs(k, f) == [j \in 1..4 |-> ObsAt(P13, Cyc(k, Scale3(f, ThinLocal[j])), "gen")]
+C13Thin == [ThinZ |-> Cfg(4, <<Src("Cuboid", Cyc(3, <<2000, 1600, 2>>), <<1, 2, 3>>, <<P13>>)>>, ThinObs(3, 1), NoSensor),
+            ThinX |-> Cfg(4, <<Src("Cuboid", Cyc(1, <<2000, 1600, 2>>), <<1, 2, 3>>, <<P13>>)>>, ThinObs(1, 1), NoSensor),
+            ThinY |-> Cfg(4, <<Src("Cuboid", Cyc(2, <<2000, 1600, 2>>), <<3, -1, 2>>, <<P13>>)>>, ThinObs(2, 1), NoSensor),
+            Thin5Z |-> Cfg(4, <<Src("Cuboid", <<10000, 8000, 2>>, <<1, 2, 3>>, <<P13>>)>>, ThinObs(3, 5), NoSensor)]
 
-BaseIds == CASE Mode = "C03" -> {<<c, m>> : c \in C03Classes \cup FineIds \cup {"Unequal"}, m \in {"pts", "sens"}} \cup {<<"Pair", "pts">>}
+BaseIds == CASE Mode = "C03" -> {<<c, m>> : c \in C03Classes \cup FineIds \cup {"Unequal", "Static"}, m \in {"pts", "sens"}} \cup {<<"Pair", "pts">>}
              [] Mode = "C12" -> {<<id, "pts">> : id \in C12Ids}
-             [] Mode = "C13" -> {<<id, "pts">> : id \in C13Ids} \cup {<<id, "ext">> : id \in DOMAIN C13Ext}
-BaseCfg(b) == CASE Mode = "C03" -> (IF b[1] = "Pair" THEN C03Pair ELSE IF b[1] = "Unequal" THEN C03Unequal(b[2])
+             [] Mode = "C13" -> {<<id, "pts">> : id \in C13Ids} \cup {<<id, "ext">> : id \in DOMAIN C13Ext} \cup {<<id, "thin">> : id \in DOMAIN C13Thin}
+BaseCfg(b) == CASE Mode = "C03" -> (IF b[1] = "Pair" THEN C03Pair ELSE IF b[1] = "Unequal" THEN C03Unequal(b[2]) ELSE IF b[1] = "Static" THEN C03Static(b[2])
                                     ELSE IF b[1] \in FineIds THEN C03Fine(b[1], b[2]) ELSE C03Base(b[1], b[2]))
                 [] Mode = "C12" -> C12Base(b[1])
-                [] Mode = "C13" -> (IF b[2] = "ext" THEN C13Ext[b[1]] ELSE C13Defs[b[1]])
+                [] Mode = "C13" -> (IF b[2] = "ext" THEN C13Ext[b[1]] ELSE IF b[2] = "thin" THEN C13Thin[b[1]] ELSE C13Defs[b[1]])
 
 \* ------------------------------------------------------------------ action palettes
 T1 == IF Tier = "quick" THEN {<<4, -8, 12>>} ELSE {<<0, 0, 0>>, <<4, -8, 12>>, <<-6, 2, 0>>}
 T2 == {<<-2, 6, 4>>}
 Gens == IF Tier = "quick" THEN {Rz90, R111} ELSE {Rx90, Rz90, R111}
+\* a second REALISATION of the same abstract step: the configuration is built in its first frame, wrapped into a Collection (flat, or
+\* nested two levels deep with the inner collections at other positions) and moved through the collection: rotate with anchor=None
+\* ("flat_rot", "nest_rot"), rotate about the explicit anchor 0 ("nest_rot0"), position / orientation setters ("nest_set"), + move
+Vias == {"flat_rot", "nest_rot", "nest_rot0", "nest_set"}
+ViaRots == IF Tier = "quick" THEN {Rz90, R111} ELSE {Rx90, Rz90, R111, Tr(R111), MulMM(Rz90, Rz90)}
 MoveActs(d) == IF d = 0 THEN {[name |-> "RigidMove", g |-> g, t |-> t] : g \in Rots, t \in T1}
+                             \cup {[name |-> "RigidMove", g |-> g, t |-> <<4, -8, 12>>, via |-> v] : g \in ViaRots, v \in Vias}
                ELSE {[name |-> "RigidMove", g |-> g, t |-> t] : g \in Gens, t \in T2}
 KSet == IF Tier = "quick" THEN {-9, -6, -4, -2, 2, 5, 9} ELSE (-9..9) \ {0}
 K2Set == IF Tier = "quick" THEN {-9, 9} ELSE {-9, -6, -3, 3, 9}
@@ -195,6 +215,7 @@ ReprActs(cfg, d) ==
   LET I == 1..Len(cfg.srcs) IN
        (IF Len(cfg.srcs) < MaxSrcs
         THEN {[name |-> "Split", i |-> i, axis |-> a, cut |-> c] : i \in I, a \in 1..3, c \in CutSet(d)}
+             \cup {[name |-> "Split", i |-> i, axis |-> a, cut |-> cfg.srcs[i].geo[a] \div 2] : i \in {i \in I : cfg.srcs[i].cls = "Cuboid"}, a \in 1..3}    \* halves
              \cup {[name |-> "SplitSeg", i |-> i, kind |-> "r", cut |-> c] : i \in I, c \in RCuts}
              \cup {[name |-> "SplitSeg", i |-> i, kind |-> "phi", cut |-> c] : i \in I, c \in PhiCuts(d)}
              \cup {[name |-> "SplitSeg", i |-> i, kind |-> "z", cut |-> c] : i \in I, c \in CutSet(d)}
@@ -214,11 +235,14 @@ Acts(cfg, d, lst) == CASE Mode = "C03" -> MoveActs(d) \cup Regauge(d, lst) \cup 
                        [] Mode = "C13" -> ReprActs(cfg, d)
 
 Init == \E b \in BaseIds : base = b /\ cur = BaseCfg(b) /\ prev = BaseCfg(b) /\ last = [name |-> "Init"] /\ n = 0
-Next == /\ n < Depth /\ last.name \notin {"Reconcretize", "Freeze"}
-        /\ (base[2] = "ext" => n < 2)
+Next == /\ n < Depth /\ last.name \notin {"Reconcretize", "Freeze"} /\ "via" \notin DOMAIN last
+        /\ (base[2] \in {"ext", "thin"} => n < 2)
         /\ \E act \in Acts(cur, n, last) :
               /\ EnabledAct(cur, act)
               /\ (act.name = "Merge" /\ last.name = "Split" => act.i # last.i)      \* do not just undo the previous step
+              \* the position / orientation setters of a Collection are a rigid motion of members WITHOUT own paths (what they do to
+              \* longer member paths is the business of C10)
+              /\ ("via" \in DOMAIN act /\ act.via = "nest_set" => PathLen(cur) = 1)
               /\ ObsOff(ApplyF(cur, act))                             \* the laws quantify over observers off all surfaces and cut planes
               /\ cur' = ApplyF(cur, act) /\ prev' = cur /\ last' = act /\ base' = base /\ n' = n + 1
 Spec == Init /\ [][Next]_vars
